@@ -330,6 +330,31 @@ func c12SliceSafe(fi *FnInfo, sl *ssa.Slice) (bool, string) {
 			_ = ms
 		}
 	}
+	// x[:0] (and x[:0:0]) is in range for every x, nil included
+	if sl.Low == nil {
+		if k, ok := sl.High.(*ssa.Const); ok && k.Value != nil && k.Int64() == 0 {
+			if sl.Max == nil {
+				return true, ""
+			}
+			if m, ok := sl.Max.(*ssa.Const); ok && m.Value != nil && m.Int64() == 0 {
+				return true, ""
+			}
+		}
+	}
+	// x[i:] / x[i+1:] inside the loop whose induction variable i ranges over x: 0 <= i < len(x), so i+1 <= len(x)
+	if sl.High == nil && sl.Low != nil {
+		low := sl.Low
+		if bo, ok := low.(*ssa.BinOp); ok && bo.Op == token.ADD {
+			if k, ok := bo.Y.(*ssa.Const); ok && k.Value != nil && k.Int64() == 1 {
+				low = bo.X
+			}
+		}
+		for _, l := range allLoops(fi.Fn) {
+			if l.Idx != nil && l.Idx == low && loopBlocks(l.Header)[sl.Block().Index] && sl.Block() != l.Header && (l.X == sl.X || desc(l.X) == xd) {
+				return true, ""
+			}
+		}
+	}
 	return false, "bounds " + desc(sl) + " are not established by a guard; guards: " + summarizeLabels(g, 4)
 }
 
